@@ -30,6 +30,7 @@ type stressCfg struct {
 	CloseServer bool   // Server.Close while traffic is still flowing (W5)
 	Reconnect   bool   // a client id reconnecting right after closing (W7)
 	Fragment    bool   // broker-side read fragmentation
+	LastWords   bool   // every publisher ends with a QoS 0 message followed at once by the close of its connection
 	Front       string // "" = net.Pipe handed to the connection handler; "tcp", "tls", "ws" = through the library's own listener / proxy (fronts_test.go)
 	GOMAXPROCS  int
 	BufferSize  int64
@@ -48,6 +49,7 @@ type stressResult struct {
 	DataWaits  int64
 	Retained   int64
 	DupFlagged int64
+	LastWords  int64
 	Inconcl    string
 }
 
@@ -230,6 +232,7 @@ func runStress(cfg stressCfg) *stressResult {
 	stop := make(chan struct{})
 	var published int64
 	var pubTotals sync.Map // uid -> number of messages published under it
+	var lastWords sync.Map // uid -> sequence number of the message a publisher sent right before closing its connection
 	// ---- publishers
 	pubDone := make([]chan struct{}, cfg.Publishers)
 	for p := 0; p < cfg.Publishers; p++ {
@@ -277,9 +280,6 @@ func runStress(cfg stressCfg) *stressResult {
 					}, 30*time.Second)
 				}
 			}
-			for key, n := range seqs {
-				pubTotals.Store(stressUID(p, key[0], byte(key[1])), n)
-			}
 			want := acks
 			if err := c.WaitFor(func(l []rawclient.Event, closed bool) bool {
 				return countType(l, rc.PUBACK)+countType(l, rc.PUBCOMP) >= want
@@ -288,6 +288,20 @@ func runStress(cfg stressCfg) *stressResult {
 			}
 			c.SendPacket(&rc.Packet{Type: rc.PINGREQ})
 			waitType(c, rc.PINGRESP, 1)
+			if cfg.LastWords {
+				// one more QoS 0 message and the connection is closed at once: the transport may hand the
+				// broker these bytes together with the end of the stream
+				key := [2]int{0, 0}
+				seqs[key]++
+				c.SendPacket(&rc.Packet{Type: rc.PUBLISH, Topic: []byte(topicName(p, 0)), Payload: spec.MakePayload(stressUID(p, 0, 0), seqs[key], 100)})
+				atomic.AddInt64(&published, 1)
+				c.Flush()
+				c.Close()
+				lastWords.Store(stressUID(p, 0, 0), seqs[key])
+			}
+			for key, n := range seqs {
+				pubTotals.Store(stressUID(p, key[0], byte(key[1])), n)
+			}
 		}(p)
 	}
 	// ---- in-process API users
@@ -408,6 +422,31 @@ func runStress(cfg stressCfg) *stressResult {
 				res.inc(s.name + ": no PINGRESP at the final barrier")
 			}
 		}
+	}
+	// messages sent right before the publisher's close are behind no barrier of the subscribers: the
+	// broker forwards them while it winds that connection up. They are waited for (generously); one that
+	// does not come is reported by the exactly-once comparison below.
+	if cfg.LastWords && !cfg.CloseServer {
+		lastWords.Range(func(k, v interface{}) bool {
+			uid, seq := k.(uint64), v.(uint32)
+			for _, s := range subs {
+				s.c.WaitFor(func(l []rawclient.Event, closed bool) bool {
+					if closed {
+						return true
+					}
+					for i := len(l) - 1; i >= 0 && i >= len(l)-64; i-- {
+						if l[i].P.Type == rc.PUBLISH {
+							if u, q, ok := spec.ParsePayload(l[i].P.Payload); ok && u == uid && q == seq {
+								return true
+							}
+						}
+					}
+					return false
+				}, 10*time.Second)
+			}
+			res.LastWords++
+			return true
+		})
 	}
 	for _, s := range subs {
 		if ferr := s.c.FrameErr(); ferr != nil {
